@@ -134,7 +134,8 @@ func (p *printer) ws(kind string, depth int) {
 		case 1:
 			p.sb.WriteString("\n")
 		default:
-			p.sb.WriteString(" \n\n" + strings.Repeat("  ", depth))
+			// no space in front of the line break: text and `//` comments run to the end of their line
+			p.sb.WriteString("\n\n" + strings.Repeat("  ", depth))
 		}
 	}
 }
